@@ -219,4 +219,28 @@ theorem exS_rel : StRel exS exS' := by
     rw [e] at h
     exact h
 
+/-- bob authenticates with the password stored for him: "pw2" in the first run, "other" in the second -/
+def exAuthOp (pw : String) : Op := .message 3 (some (authReq 8 "bob" pw)) {}
+
+theorem exOpRel : OpRel exCfg exS exS' (exAuthOp "pw2") (exAuthOp "other") := by
+  refine Or.inr ⟨3, _, _, {}, rfl, rfl, Or.inr (Or.inl ⟨_, _, rfl, rfl, ?_, ?_⟩)⟩
+  · refine Or.inr ⟨by decide +kernel, Or.inl (by decide +kernel), ?_, k "bob", k "pw2", k "other", authReq_cred 8 "bob" "pw2",
+      authReq_cred 8 "bob" "other"⟩
+    exact (authReq_id 8 "bob" "other").trans (authReq_id 8 "bob" "pw2").symm
+  · intro u pw pw' hc hc' a a' ha ha'
+    have e1 := (authReq_cred 8 "bob" "pw2").symm.trans hc
+    have e2 := (authReq_cred 8 "bob" "other").symm.trans hc'
+    injection e1 with hu hpw
+    injection e2 with _ hpw'
+    subst hu; subst hpw; subst hpw'
+    have hus : (mkCtx exS {}).st.users = exUsers := exUsers_state
+    rw [hus] at ha
+    have h1 : (findUser exUsers (k "bob")).map (·.password) = some (k "pw2") := by decide +kernel
+    have h2 : (findUser exS'.users (k "bob")).map (·.password) = some (k "other") := by decide +kernel
+    rw [ha] at h1
+    rw [ha'] at h2
+    simp only [Option.map_some, Option.some.injEq] at h1 h2
+    rw [h1, h2]
+    simp
+
 end Cjet.Daemon.C08
